@@ -20,6 +20,20 @@ fn main() {
         }
         i += 1;
     }
+    if id == "regress" {
+        let mut bad = 0;
+        for r in regress::all() {
+            let res = util::guarded(|| (r.f)());
+            let txt = match res { Ok(Ok(())) => "ok".to_string(), Ok(Err(m)) => { bad += 1; format!("FAIL: {}", m) }, Err(p) => { bad += 1; format!("PANIC: {}", p) } };
+            println!("{:34} {:4} {}", r.name, r.property, txt);
+        }
+        std::process::exit(if bad > 0 { 1 } else { 0 });
+    }
+    if let Some(rp) = &replay {
+        if let Some(name) = rp["regression"].as_str() {
+            std::process::exit(regress::replay(name).unwrap_or(2));
+        }
+    }
     let code = match id {
         "C17" => c17::run(replay),
         _ => {
